@@ -437,7 +437,7 @@ def check_C03(prop, tier, only):
     c = cfgs_for(tier)
     x = "--tries 1 --faults 1"
     jobs = (pool_suite(tier, c, extra=x, fams=("member", "traits", "compose")) + coll_suite(tier, c, extra=x, fams=("member", "compose"))
-            + stack_suite(tier, c, extra=x, fams=("member", "compose")) + iter_suite(tier, c, extra="--faults 0")
+            + stack_suite(tier, c, extra=x, fams=("member",)) + iter_suite(tier, c, extra="--faults 0")
             + arena_suite(tier, c[:1], extra="--faults 1") + static_suite(tier, c))
     import grids
     ej = [J("h_lowlevel", cfg, "--mode fail", name=f"lowlevel-fail[{cfg}]") for cfg in c]
